@@ -71,6 +71,18 @@ def peak_cases(rng, tier):
         c = unitsys.case_in_units(by[k], u)
         c['_truth'] = by[k]
         out.append((f'{k}-{u["length"]}-{u["temperature"]}', c))
+    # a hot centre among cooler neighbours, six-node regions above the
+    # bundles: the hottest node of an outer assembly faces the centre
+    from harness.scenarios import fitted_type, layout_positions
+    T6 = add_regions(fitted_type(2, 0.060), L,
+                     upper=dict(model='6node', vf_coolant=0.4),
+                     rods=[0.0, 0.3])
+    npin6 = 7
+    out.append(('peak-core-6node-hot-centre', make_core(
+        rng, {'T': T6}, [(r_, p_, 'T') for (r_, p_) in layout_positions(7)],
+        [flow_for(T6, 0.08)] * 7, gap_model='flow', bypass_fraction=0.03,
+        ncell=2, cell_bounds=[0.0, 0.3, 0.6], power_order=1,
+        asm_power=[2.0e4 * npin6 * f for f in (4.0, .7, .8, .6, .9, .75, .65)])))
     cl = scenarios.core_lattice(rng, tier)
     out.append(('peak-core-dd-unrodded', with_pins(copy.deepcopy(cl[2][1]))))
     if tier == 'thorough':
